@@ -95,6 +95,11 @@ def compare(text, ordered, kw, state, limit_mode=None):
                 if re.search(rf'(?i)\b{al}\.', text) and f'AS "{al}"' not in sql_:
                     # executable model of C08-F6: the name is an alias of the ENCLOSING query, left in a sub-query that was planned as a fetch of its own
                     kind = 'fetch-of-a-correlated-subquery-with-its-outer-reference'
+            m3_ = re.match(r'no such table: (\w+)\.(\w+)\.(\w+) \(asked of (\w+)\): (WITH )?', msg)
+            if m3_ and m3_.group(5) and m3_.group(1) == m3_.group(4) and m3_.group(2) != m3_.group(4):
+                # executable model of C08-F9: the fetch still reads a CTE (from a sub-query of one of its clauses), so the WITH clause went along -
+                # and the CTE's body reads ANOTHER integration's table, which the asked integration is now expected to have
+                kind = 'fetch-carries-a-with-clause-whose-body-reads-another-integration'
             return 'differ', {'kind': kind, 'expected': exp, 'got': msg[:300], 'log': log, 'plan': plan}
         except NotInterpretable as e:
             return 'skip:not-interpretable', str(e)[:160]
@@ -318,6 +323,13 @@ def run_shard(ctx):
         elif i % 20 == 15:
             text, ordered, feats = fedgen.derived_join(r), False, {'nested-select-joined-across-integrations'}
             acc.count('derived_join_shapes')
+        elif i % 20 == 1:
+            text, ordered, feats = fedgen.join_chain(r), False, {'join-chain-same-named-keys'}
+            acc.count('join_chain_shapes')
+        elif i % 20 == 11:
+            text, feats = fedgen.cte_in_clause_subquery(r), {'cte-read-by-clause-subquery'}
+            ordered = ' ORDER BY ' in text
+            acc.count('cte_clause_subquery_shapes')
         elif i % 20 == 5:
             text, ordered, feats = fedgen.const_first(r), False, {'value-first-comparison'}
             acc.count('const_first_shapes')
